@@ -207,7 +207,13 @@ def finish(ctx, mod, replaying=False, no_evidence=False):
 
     if not confirmed and not replaying:
         bad = [m for ok, m in ctx.requirements if not ok]
-        if bad:
+        if bad and any('time budget' in c for c in ctx.caps_hit):
+            # the exploration was cut short by its (generous) wall-clock budget, e.g. on an overloaded machine: what was
+            # explored held; the evidence says exhaustive=false, lists the cap and the guards that could not be met
+            for m in bad:
+                sys.stderr.write('note: run cut short by its time budget; guard not met: %s\n' % m)
+            ctx.notes['guards_not_met_after_time_cap'] = bad
+        elif bad:
             for m in bad:
                 sys.stderr.write('HARNESS ERROR: vacuity guard failed: %s\n' % m)
             return 2
